@@ -11,13 +11,13 @@ DS = 'statime/src/datastructures/mod.rs'
 
 PRELUDE = _tlv.PRELUDE + r'''
 // ---- abstract header / body layer (assumed contracts; guaranteed by Kani units header / bodies) ----
-#[derive(Clone, Copy, Debug)]
+#[derive(Clone, Copy, Debug, PartialEq, Eq)]
 pub struct Header { pub abstract_id: u64 }
-#[derive(Clone, Copy, Debug)]
+#[derive(Clone, Copy, Debug, PartialEq, Eq)]
 pub enum MessageType { Sync, DelayReq, PDelayReq, PDelayResp, FollowUp, DelayResp, PDelayRespFollowUp, Announce, Signaling, Management }
-#[derive(Clone, Copy, Debug)]
+#[derive(Clone, Copy, Debug, PartialEq, Eq)]
 pub struct DeserializedHeader { pub header: Header, pub message_type: MessageType, pub message_length: u16 }
-#[derive(Clone, Copy, Debug)]
+#[derive(Clone, Copy, Debug, PartialEq, Eq)]
 pub struct MessageBody { pub abstract_id: u64, pub kind: MessageType }
 
 // Clause 13: body sizes (13.5 - 13.12; signaling 13.12 targetPortIdentity, management 15.4.1 first 14 octets)
@@ -107,7 +107,7 @@ UNIT = dict(
     items=tlv_items + [
         dict(kind='impl', file='statime/src/datastructures/messages/header.rs', header='impl Header',
              fns=[ff('wire_size', ret='r', ensures=['r == 34'])]),
-        dict(kind='struct', file=M, name='Message', renames=[(r'#\[derive\(Debug\)\]', '')]),
+        dict(kind='struct', file=M, name='Message', renames=[(r'#\[derive\([^)]*\)\]', '')]),
         dict(kind='impl', file=M, header="impl<'a> Message<'a>", fns=[
             ff('wire_size', ret='r',
                requires=['set_bytes(self.suffix).len() % 2 == 0', 'set_bytes(self.suffix).len() <= 0xffff'],
